@@ -10,11 +10,12 @@ Definition latched (w : wstate) : Prop := enforcement_error (w_led w) <> ROk.
 Lemma run_bind {A B} : forall adv (p : prog A) (f : A -> prog B) w,
   run adv (bind p f) w = let '(w1, a) := run adv p w in run adv (f a) w1.
 Proof.
-  intros adv p f. induction p as [a|n k IH|be kok IHok kerr IHerr|be kok IHok kerr IHerr|k IH|k IH|k IH]; intros w; cbn.
+  intros adv p f. induction p as [a|n k IH|be kok IHok kerr IHerr|be kok IHok kerr IHerr|k IH|l k IH|k IH|k IH]; intros w; cbn.
   - reflexivity.
   - apply IH.
   - destruct (ctx_debit w kind_outbound be) as [w1 r]. destruct r; [apply IHok|apply IHerr..].
   - destruct (ctx_debit w kind_internal be) as [w1 r]. destruct r; [apply IHok|apply IHerr..].
+  - apply IH.
   - apply IH.
   - apply IH.
   - apply IH.
@@ -88,7 +89,7 @@ Lemma run_guarded_enforce {A} : forall (p : prog A), guarded p ->
   forall adv w0 w, wenf w0 -> einv w0 w -> einv w0 (fst (run adv p w)).
 Proof.
   intros p G. induction G as [a|n k Hk IH|be k kerr Gk IHk Gerr IHerr|be k kerr Gk IHk Gerr IHerr
-                               |be k kerr Gk IHk Gerr IHerr|be k kerr Gk IHk Gerr IHerr|k Gk IH];
+                               |be l k kerr Gk IHk Gerr IHerr|be k kerr Gk IHk Gerr IHerr|k Gk IH|k Gk IH];
     intros adv w0 w He Hi.
   - exact Hi.
   - cbn. apply IH; [|exact He|].
@@ -125,6 +126,7 @@ Proof.
     destruct D as (Dp & Dl & Do & [(-> & Hlt & Hint)|((lim & ->) & Hint)]).
     + apply IHk; [exact He|]. constructor; cbn; try assumption; try congruence; rewrite ?Dp, ?Do; try lia.
     + apply IHerr; [exact He|]. constructor; cbn; try assumption; try congruence; rewrite ?Dp, ?Hint, ?Do; try lia.
+  - cbn. apply IH; assumption.
   - cbn. apply IH; assumption.
 Qed.
 
@@ -184,7 +186,7 @@ Lemma run_quiet_same {A} : forall (p : prog A) adv w1 w2, wquiet w1 -> wquiet w2
   snd (run adv p w1) = snd (run adv p w2) /\ same_obs (fst (run adv p w1)) (fst (run adv p w2)) /\
   wquiet (fst (run adv p w1)) /\ wquiet (fst (run adv p w2)).
 Proof.
-  intros p adv. induction p as [a|n k IH|be kok IHok kerr IHerr|be kok IHok kerr IHerr|k IH|k IH|k IH];
+  intros p adv. induction p as [a|n k IH|be kok IHok kerr IHerr|be kok IHok kerr IHerr|k IH|l k IH|k IH|k IH];
     intros w1 w2 Q1 Q2 S; cbn.
   - auto.
   - destruct S as (St & Sx & Ss). rewrite St. apply IH.
@@ -207,6 +209,7 @@ Proof.
     + destruct Q1; split; assumption.
     + destruct Q2; split; assumption.
     + destruct S as (St & Sx & Ss). repeat split; cbn; congruence.
+  - apply IH; assumption.
   - rewrite (quiet_enferr _ Q1), (quiet_enferr _ Q2). apply IH; assumption.
 Qed.
 
@@ -219,7 +222,7 @@ Lemma run_costs {A} : forall (p : prog A) n, costs p n -> forall adv w,
   w_exch (fst (run adv p w)) <= w_exch w + N.of_nat n.
 Proof.
   intros p n C. induction C as [a n|m k n Hk IH|be kok kerr n Cok IHok Cerr IHerr|be kok kerr n Cok IHok Cerr IHerr
-                                 |k n Ck IH|k n Ck IH|k n Hk IH|p n n' C IH Hle]; intros adv w; cbn.
+                                 |k n Ck IH|l k n Ck IH|k n Ck IH|k n Hk IH|p n n' C IH Hle]; intros adv w; cbn.
   - lia.
   - assert (Hb : (Nat.modulo (adv (w_tick w)) (S m) <= m)%nat) by (pose proof (Nat.mod_upper_bound (adv (w_tick w)) (S m)); lia).
     specialize (IH _ Hb adv (w_ticked w)). cbn in IH. exact IH.
@@ -231,6 +234,7 @@ Proof.
     destruct r; [apply IHok|apply IHerr..].
   - specialize (IH adv (w_exchanged w)). cbn in IH. lia.
   - specialize (IH adv (w_subbed w)). cbn in IH. exact IH.
+  - apply IH.
   - apply IH.
   - specialize (IH adv w). lia.
 Qed.
@@ -245,6 +249,7 @@ Proof.
   - apply c_int; auto.
   - apply c_exch. auto.
   - apply c_sub. auto.
+  - apply c_end. auto.
   - apply c_enf. auto.
   - eapply c_weaken; [apply IHC|lia].
 Qed.
@@ -259,5 +264,6 @@ Proof.
   - apply g_out; auto.
   - apply g_int_s; auto.
   - apply g_int; auto.
+  - apply g_end. auto.
   - apply g_enf. auto.
 Qed.
